@@ -74,14 +74,51 @@ pub struct Rendered {
     pub depth_after: usize,
 }
 
+/// Token variety for the texts that macros and token registers hold (source text, what the sink
+/// renders when the tokens are executed). The text is a pure function of the id, so that a
+/// restored VM must reproduce it token for token: characters of one, two, three and four UTF-8
+/// bytes (beyond the BMP too), a space token, character tokens of other categories, a group pair
+/// and a control sequence. None of the characters is among [SPARE_CHARS], whose category codes the
+/// workload changes.
+const DECOS: [(&str, &str); 12] = [
+    ("", ""),
+    ("\u{ff}", "\u{ff}"),
+    ("\u{3bb}", "\u{3bb}"),
+    ("", ""),
+    ("\u{1d538}", "\u{1d538}"),
+    (" y", " y"),
+    ("\u{1f600}x", "\u{1f600}x"),
+    ("", ""),
+    ("{}", ""),
+    ("\\relax ", ""),
+    ("^x", "<7:^>x"),
+    ("\u{2603}\u{10ffff}", "\u{2603}\u{10ffff}"),
+];
+
+fn deco(id: u32) -> (&'static str, &'static str) {
+    DECOS[(id as usize / 3) % DECOS.len()]
+}
+
 pub fn macro_body(id: u32) -> String {
-    format!("Q{id}.")
+    format!("Q{id}.{}", deco(id).0)
+}
+/// What executing the tokens of [macro_body] delivers to the sink.
+pub fn macro_body_rendered(id: u32) -> String {
+    format!("Q{id}.{}", deco(id).1)
 }
 pub fn toks_body(id: i32) -> String {
     if id == 0 {
         String::new()
     } else {
-        format!("Z{id}.")
+        format!("Z{id}.{}", deco(id as u32 ^ 0x5).0)
+    }
+}
+/// What executing the tokens of [toks_body] delivers to the sink.
+pub fn toks_body_rendered(id: i32) -> String {
+    if id == 0 {
+        String::new()
+    } else {
+        format!("Z{id}.{}", deco(id as u32 ^ 0x5).1)
     }
 }
 
@@ -179,7 +216,7 @@ impl Model {
                     format!("{}.0pt", v.0)
                 }
             }
-            RegKind::Toks => toks_body(v.0),
+            RegKind::Toks => toks_body_rendered(v.0),
         }
     }
 
@@ -480,7 +517,7 @@ impl Model {
                     }
                     Meaning::Macro(id) => {
                         text.push_str(&format!("{};", t.tex_use()));
-                        out.push_str(&format!("{};", macro_body(id)));
+                        out.push_str(&format!("{};", macro_body_rendered(id)));
                     }
                     Meaning::CharAlias(c) => {
                         text.push_str(&format!("{};", t.tex_use()));
